@@ -58,7 +58,10 @@ type DOM struct {
 	Min   int // minimum number of sink sites confirmed by hand (default 1)
 	Max   int // 0 = unbounded
 	Shallow bool // do not look inside closures
-	Note  string
+	// Stable lists (audited) canonical expressions that are pure over SSA registers; a path may not take
+	// both polarities of such an expression (removes infeasible paths of the `if ok {a}; …; if !ok {return}` shape).
+	Stable []string
+	Note   string
 }
 
 func (r DOM) RuleID() string { return r.ID }
@@ -86,7 +89,7 @@ func (r DOM) Check(w *World) []Result {
 	var out []Result
 	for _, s := range sites {
 		for _, g := range r.Gates {
-			if !w.GuardedBy(s, g) {
+			if !w.GuardedByConsistent(s, g, compileAll(r.Stable)) {
 				out = append(out, one(r.ID, "DOM", construct+"⇐"+g.Text, Violated, len(sites), w.InstrPos(s),
 					fmt.Sprintf("effect `%s` in %s is reachable without passing guard {%s}", clip(w.RenderInstr(s), 160), FnName(s.Parent()), g.Text),
 					w.DominatingLits(s)...))
@@ -172,6 +175,7 @@ type POST struct {
 	ID      string
 	Fn      string
 	From    string
+	FromLit string   // alternatively: start from every CFG edge on which this literal holds
 	Must    []string // alternatives
 	To      RetSpec  // default RetAny
 	Excuse  []string // literal patterns: paths crossing such an edge are not obliged
@@ -187,7 +191,7 @@ func (r POST) Check(w *World) []Result {
 	if fn == nil {
 		return anchorMissing(r.ID, "POST", r.Fn)
 	}
-	construct := "POST:" + r.Fn + "▸" + r.From + "→" + strings.Join(r.Must, "|")
+	construct := "POST:" + r.Fn + "▸" + r.From + r.FromLit + "→" + strings.Join(r.Must, "|")
 	var musts []*regexp.Regexp
 	for _, m := range r.Must {
 		musts = append(musts, regexp.MustCompile(m))
@@ -201,15 +205,31 @@ func (r POST) Check(w *World) []Result {
 		excuse.Lits = append(excuse.Lits, MustLitPat(e))
 	}
 	type start struct {
-		in ssa.Instruction
-		fn *ssa.Function
+		in   ssa.Instruction
+		fn   *ssa.Function
+		edge *ssa.BasicBlock // FromLit: start at the entry of this block
 	}
 	var starts []start
-	if r.From == "" {
-		starts = append(starts, start{nil, fn})
+	if r.FromLit != "" {
+		pat := MustLitPat(r.FromLit)
+		for _, f := range WithClosures(fn) {
+			for _, b := range f.Blocks {
+				t, fl, ok := w.BlockLits(b)
+				if !ok {
+					continue
+				}
+				for i, l := range []Lit{t, fl} {
+					if pat.Match(l) && len(b.Succs[i].Instrs) > 0 {
+						starts = append(starts, start{nil, f, b.Succs[i]})
+					}
+				}
+			}
+		}
+	} else if r.From == "" {
+		starts = append(starts, start{nil, fn, nil})
 	} else {
 		for _, s := range w.Sites(fn, regexp.MustCompile(r.From), !r.Shallow) {
-			starts = append(starts, start{s, s.Parent()})
+			starts = append(starts, start{s, s.Parent(), nil})
 		}
 	}
 	min := r.Min
@@ -222,13 +242,22 @@ func (r POST) Check(w *World) []Result {
 	}
 	var out []Result
 	for _, st := range starts {
-		if bad, why := w.postViolated(st.fn, st.in, musts, spec, excuse); bad {
+		var bad bool
+		var why string
+		if st.edge != nil {
+			bad, why = w.postSearch(st.fn, st.edge, 0, musts, spec, excuse)
+		} else {
+			bad, why = w.postViolated(st.fn, st.in, musts, spec, excuse)
+		}
+		if bad {
 			pos := w.Pos(st.fn.Pos())
-			if st.in != nil {
+			if st.edge != nil {
+				pos = w.InstrPos(st.edge.Instrs[0])
+			} else if st.in != nil {
 				pos = w.InstrPos(st.in)
 			}
 			out = append(out, one(r.ID, "POST", construct, Violated, len(starts), pos,
-				fmt.Sprintf("in %s a path from `%s` reaches %s without executing {%s}", FnName(st.fn), clip(r.From, 80), why, strings.Join(r.Must, " | "))))
+				fmt.Sprintf("in %s a path from `%s` reaches %s without executing {%s}", FnName(st.fn), clip(r.From+r.FromLit, 80), why, strings.Join(r.Must, " | "))))
 		}
 	}
 	if len(out) == 0 {
@@ -264,12 +293,6 @@ func (w *World) postViolated(fn *ssa.Function, from ssa.Instruction, musts []*re
 			}
 		}
 	}
-	cut := w.GateCut(fn, excuse)
-	sinks := map[*ssa.BasicBlock][]RetSink{}
-	for _, s := range w.ReturnSinks(fn, spec) {
-		sinks[s.Ret.Block()] = append(sinks[s.Ret.Block()], s)
-	}
-	// scan the remainder of the start block
 	var startBlock *ssa.BasicBlock
 	startIdx := 0
 	if from == nil {
@@ -277,6 +300,15 @@ func (w *World) postViolated(fn *ssa.Function, from ssa.Instruction, musts []*re
 	} else {
 		startBlock = from.Block()
 		startIdx = instrIndex(from) + 1
+	}
+	return w.postSearch(fn, startBlock, startIdx, musts, spec, excuse)
+}
+
+func (w *World) postSearch(fn *ssa.Function, startBlock *ssa.BasicBlock, startIdx int, musts []*regexp.Regexp, spec RetSpec, excuse Gate) (bool, string) {
+	cut := w.GateCut(fn, excuse)
+	sinks := map[*ssa.BasicBlock][]RetSink{}
+	for _, s := range w.ReturnSinks(fn, spec) {
+		sinks[s.Ret.Block()] = append(sinks[s.Ret.Block()], s)
 	}
 	type item struct {
 		b    *ssa.BasicBlock
